@@ -4,7 +4,7 @@ for s in "$@"; do
   d=/tmp/vm/$s; rm -rf $d; mkdir -p $d; rsync -a --exclude .git --exclude violations ${SRC:-/verif}/ $d/
   out=/tmp/vm/$s.txt; : > $out
   for p in C01 C02 C03 C04 C05 C06 C07 C08 C09 C10 C11 C12 C13 C14 C15 C16 C17 C18 C19 C20; do
-    r=$(GEARPY_REPO=/tmp/seed/$s timeout 1500 $d/check $p 2>&1); rc=$?
+    r=$(GEARPY_REPO=${SEEDDIR:-/tmp/seed}/$s timeout 1500 $d/check $p 2>&1); rc=$?
     echo "$p rc=$rc $(echo "$r" | grep -c '^VIOLATION') $(echo "$r" | grep '^VIOLATION' | grep -c no-failing) | $(echo "$r" | grep -A2 '^VIOLATION' | grep -v '^VIOLATION' | head -2 | tr '\n' ' ' | cut -c1-260)" >> $out
   done
   rm -rf $d
